@@ -367,6 +367,64 @@ Fixpoint prun (p : pbar) (now : Z) (ops : list (Z * pop)) : res (list (Z * list 
 Definition good_pop (sty : styles) (o : pop) : bool :=
   match o with OMessage m => good_lineb sty m | OBelow t => good_textb sty t | _ => true end.
 
+(* ---- the states whose frame a call renders; the class of the frame theorems as checks that can be run ---- *)
+(* set_progress: maximum and step after the update, the state displayed *)
+Local Open Scope Z_scope.
+Definition sp_max (p : pbar) (k : Z) : Z := if (0 <? p_max p) && (p_max p <? k) then k else p_max p.
+Definition sp_step (p : pbar) (k : Z) : Z := if (0 <? p_max p) && (p_max p <? k) then k else if k <? 0 then 0 else k.
+Definition sp_state (p : pbar) (k : Z) : pbar :=
+  if 0 <? sp_max p k then set_pct (with_progress p (sp_max p k) (sp_step p k)) (sp_step p k) (sp_max p k)
+  else set_pct (with_progress p (sp_max p k) (sp_step p k)) 0 1.
+(* finish: a bar without maximum takes its step as the maximum *)
+Definition finish_state (p : pbar) : pbar := if p_max p =? 0 then with_progress p (p_step p) (p_step p) else p.
+Local Close Scope Z_scope.
+(* start *)
+Definition start_state (p : pbar) (now : Z) (mx : option Z) : pbar :=
+  let p1 := set_start (set_pct (with_progress p (p_max p) 0) 0 1) now in
+  match mx with Some m => set_fmt (set_max_steps p1 m) None (p_flc p1) | None => p1 end.
+(* the state whose frame a call displays, when it displays one *)
+Definition draw_state (p : pbar) (now : Z) (o : pop) : option pbar :=
+  match o with
+  | OStart mx => Some (start_state p now mx)
+  | OAdvance k => Some (sp_state p (p_step p + k))
+  | OSet k => Some (sp_state p k)
+  | ODisplay => Some p
+  | OFinish => Some (sp_state (finish_state p) (p_max (finish_state p)))
+  | _ => None
+  end.
+
+Definition lits (f : format) : str := flat_map (fun x => match x with PLit s => s | _ => [] end) f.
+(* the visible text of a line of markup (the undecorated formatter, empty style stack) *)
+Definition vis_of (sty : styles) (l : str) : str := match colorize sty false [] l with Ok (_, v) => v | Err _ => [] end.
+(* a line that does not end inside a tag: blanks may be appended to it *)
+Definition closedb (l : str) : bool := match l_cand (fold_left lex_step l lex_init) with CText => true | _ => false end.
+Definition oklb (sty : styles) (l : str) : bool := good_lineb sty l && closedb l.
+(* an ANSI line: the frame a state renders is one line of good markup that fits the width *)
+Definition frame_fitsb (w : nat) (sty : styles) (q : pbar) (now : Z) : bool :=
+  match frame_of (with_fmt q) now with
+  | Ok (_, fr) => oklb sty fr && Nat.leb (length (vis_of sty fr)) w
+  | Err _ => true
+  end.
+Definition step_fitsb (w : nat) (sty : styles) (p : pbar) (now : Z) (o : pop) : bool :=
+  match draw_state p now o with Some q => frame_fitsb w sty q now | None => true end.
+Fixpoint run_fitsb (w : nat) (sty : styles) (p : pbar) (now : Z) (ops : list (Z * pop)) : bool :=
+  match ops with
+  | [] => true
+  | (dt, o) :: r => step_fitsb w sty p (now + dt) o &&
+                    match pstep p (now + dt) o with Ok (p', _) => run_fitsb w sty p' (now + dt) r | Err _ => true end
+  end.
+(* a section: every line of the frame is good markup *)
+Definition frame_lines_okb (sty : styles) (q : pbar) (now : Z) : bool :=
+  match frame_of (with_fmt q) now with Ok (_, fr) => forallb (oklb sty) (lines_of fr) | Err _ => true end.
+Fixpoint sec_run_okb (sty : styles) (p : pbar) (now : Z) (ops : list (Z * pop)) : bool :=
+  match ops with
+  | [] => true
+  | (dt, o) :: r => match draw_state p (now + dt) o with Some q => frame_lines_okb sty q (now + dt) | None => true end &&
+                    match pstep p (now + dt) o with Ok (p', _) => sec_run_okb sty p' (now + dt) r | Err _ => true end
+  end.
+Definition one_lineb (custom : option format) : bool :=
+  match custom with Some f => Nat.eqb (count_nl (lits f)) 0 | None => true end.
+
 (* ---- wire ---- *)
 Definition dec_spec (s : sexp) : option spec :=
   match s with
@@ -400,7 +458,8 @@ Definition dec_pop (s : sexp) : option (Z * pop) :=
    `below` (when given) is written to the second one.
    answer: the bytes of that set-up, the trace (clock value and emits of every call), step, max and the progress
    fraction (reduced), the terminal after
-   everything, every section's content lines and row count, whether the case is inside the class of the frame theorems *)
+   everything, every section's content lines and row count, whether the messages are good markup, whether the premises
+   of the theorems about whole histories hold (ANSI: run_fitsb and a one-line format; section: sec_run_okb) *)
 Definition run_C16 (s : sexp) : sexp :=
   match s with
   | L [ansi; quiet; section; A verb; A mx; A bw; A mnum; A mden; A xnum; A xden; rf; custom; msg; A t0; ops; A w; set; below; pchar] =>
@@ -425,7 +484,11 @@ Definition run_C16 (s : sexp) : sexp :=
                sB (forallb (good_pop (f_styles f0)) (map snd ops)
                    && match msg with Some m => good_lineb (f_styles f0) m | None => true end
                    && match below with Some t => good_textb (f_styles f0) t | None => true end
-                   && good_lineb (f_styles f0) pchar)]
+                   && good_lineb (f_styles f0) pchar);
+               (* the premises of the frame theorems about whole histories (Props/C16.v) hold for this case *)
+               sB (if quiet || negb ansi then true
+                   else if section then sec_run_okb (f_styles f0) p t0 ops
+                   else one_lineb custom && run_fitsb w (f_styles f0) p t0 ops)]
           | Err k => sErr k
           end
         | Err k => sErr k
